@@ -139,6 +139,113 @@ def r3_tag_tables(ctx):
             r.violation("%s|decoder-extra:%d" % (enum, n), cfg.loc(f_enum.main), "decoder maps tag %d to %s but the encoder writes %s for it" % (n, v, to_int.get(v)), work=1)
 
 
+def r1_wire_grammar(ctx):
+    from .. import grammar
+    ws = ctx.ws
+    r = ctx.rule("C14-R1", "encoder and decoder of every binary type walk the same sequence of primitives and nested types on every path",
+                 floor=28, kind="K5 sibling agreement (path languages of the two CFGs)")
+    encs, decs = {}, {}
+    for i in ws.impls_of(ENC):
+        for it in i["items"]:
+            if it["name"] == "encode" and it["path"] in ws.fns:
+                encs[i["self_ty"]] = ws.fns[it["path"]]
+    for i in ws.impls_of(DEC):
+        for it in i["items"]:
+            if it["name"] == "decode" and it["path"] in ws.fns:
+                decs[i["self_ty"]] = ws.fns[it["path"]]
+    for ty in sorted(set(encs) & set(decs)):
+        try:
+            eq, only_e, only_d, (ne, nd) = grammar.compare(ws, encs[ty], decs[ty])
+        except grammar.TooComplex:
+            r.note("%s: more than %d paths, not compared" % (ty, grammar.MAX_SET))
+            continue
+        where = cfg.loc(decs[ty].main)
+        if eq:
+            r.ok(ty + "|grammar", where, "%d encoder path(s) == %d decoder path(s)" % (ne, nd), work=ne + nd)
+        else:
+            def show(seqs):
+                return "; ".join(" ".join(x.replace("N:", "").rsplit("::", 1)[-1] for x in s) or "(nothing)" for s in seqs[:2])
+            what = []
+            if only_e:
+                what.append("written but never read that way: [%s]" % show(only_e))
+            if only_d:
+                what.append("read but never written that way: [%s]" % show(only_d))
+            r.violation(ty + "|grammar", where,
+                        "encode and decode of %s disagree on the byte layout on some path — %s" % (ty.rsplit("::", 1)[-1], " / ".join(what)),
+                        work=ne + nd)
+    r.note("%d types with both impls; decode-only types: %s" % (len(set(encs) & set(decs)), sorted(x.rsplit("::", 1)[-1] for x in set(decs) - set(encs))))
+
+
+# Variants an encoder has an arm for but no decoder may produce, with the reason.
+UNDECODABLE_VARIANTS = {
+    ("sos_core::events::write::WriteEvent", "Noop"): "placeholder; decoding it is an error by design",
+    ("sos_core::events::account::AccountEvent", "Noop"): "placeholder; decoding it is an error by design",
+    ("sos_core::events::device::DeviceEvent", "Noop"): "placeholder; decoding it is an error by design",
+    ("sos_core::events::file::FileEvent", "Noop"): "placeholder; decoding it is an error by design",
+}
+
+
+def r6_variant_coverage(ctx):
+    ws = ctx.ws
+    r = ctx.rule("C14-R6", "every enum variant an encoder writes can be produced by a decoder",
+                 floor=8, kind="K5 sibling agreement (variant sets)")
+    # variants constructed by any decoder (or a helper in a decoder's crate)
+    constructed = {}
+    dec_fns = []
+    for i in ws.impls_of(DEC):
+        for it in i["items"]:
+            if it["name"] == "decode" and it["path"] in ws.fns:
+                dec_fns.append(ws.fns[it["path"]])
+    extra = [f for f in ws.fns.values() if re.search(r"::encoding::", f.root) and "BinaryReader" in " ".join(f.meta.get("inputs") or [])]
+    for f in dec_fns + extra:
+        for b in f.bodies:
+            for j in cfg.live_blocks(b):
+                for s in b.blocks[j]["s"]:
+                    if s.get("k") == "agg" and s.get("ak") == "adt" and s["adt"] in ws.adts and ws.adts[s["adt"]]["kind"] == "Enum":
+                        constructed.setdefault(s["adt"], set()).add(s["variant"])
+    # TryFrom<uN> tables also construct unit variants for decoders
+    for f in ws.fns.values():
+        if re.search(r"core::convert::TryFrom<u(8|16|32|64)>>::try_from$", f.root):
+            for b in f.bodies:
+                for blk in b.blocks:
+                    for s in blk["s"]:
+                        if s.get("k") == "agg" and s.get("ak") == "adt" and s["adt"] in ws.adts:
+                            constructed.setdefault(s["adt"], set()).add(s["variant"])
+    n = 0
+    for i in ws.impls_of(ENC):
+        for it in i["items"]:
+            if it["name"] != "encode" or it["path"] not in ws.fns:
+                continue
+            f = ws.fns[it["path"]]
+            seen = set()
+            for b in f.bodies:
+                for es in cfg.enum_switches(b):
+                    if not es.enum or es.enum not in ws.adts or es.enum in seen:
+                        continue
+                    if ws.adts[es.enum]["crate"] in idioms.TEST_CRATES:
+                        continue
+                    variants = [v["name"] for v in ws.adts[es.enum]["variants"]]
+                    if len(variants) < 2 or len(es.targets) < 2:
+                        continue
+                    seen.add(es.enum)
+                    n += 1
+                    have = constructed.get(es.enum, set())
+                    missing = [v for v in es.targets if v not in have and (es.enum, v) not in UNDECODABLE_VARIANTS]
+                    # a decoder that goes through serde/TryFrom<String> etc. constructs nothing visibly: skip enums never constructed by decoders at all
+                    key = "%s|written-by:%s" % (es.enum, idioms.last_seg(f.root) if False else i["self_ty"].rsplit("::", 1)[-1])
+                    if not have:
+                        r.note("%s: no decoder constructs this enum directly (decoded through another mechanism)" % es.enum)
+                        continue
+                    if missing:
+                        r.violation(key, cfg.loc(b, es.block),
+                                    "the encoder of %s writes variant(s) %s of %s but no decoder ever constructs them: such values are lost or mis-read on decode" % (
+                                        i["self_ty"].rsplit("::", 1)[-1], missing, es.enum.rsplit("::", 1)[-1]), work=len(variants))
+                    else:
+                        r.ok(key, cfg.loc(b, es.block), "all %d written variants of %s are constructed by decoders" % (len(es.targets), es.enum.rsplit("::", 1)[-1]), work=len(variants))
+    if n < 8:
+        r.anchor_missing("encoders that match on an enum (found %d)" % n)
+
+
 def _self_fields(ws, adt_path):
     adt = ws.adts.get(adt_path)
     if not adt or adt["kind"] != "Struct":
@@ -258,14 +365,18 @@ def r5_db_row_mapping(ctx):
 
 def run(ctx):
     ctx.explanation = (
-        "Sibling-agreement rules between every encoder and its decoder: (R2) for each struct with Encodable and "
+        "Sibling-agreement rules between every encoder and its decoder: (R1) for each type with Encodable and Decodable "
+        "impls the set of token sequences (primitive writes/reads and nested codecs, helpers inlined, loops unrolled "
+        "0..2 times, error exits pruned) along every successful path of encode equals that of decode; (R2) for each struct with Encodable and "
         "Decodable impls, the fields the encoder reads are stored by the decoder; (R3) for each enum with a "
         "From<&T> for uN / TryFrom<uN> for T pair the variant→tag and tag→variant tables extracted from the match arms "
         "are inverse and injective over all variants; (R4) no HashMap/HashSet inside types whose encoding is hashed "
         "into commits; (R5) event rows map to and from the same record parts. Decides shape/field/tag agreement in "
         "every branch; value equality (timestamp precision etc.) is not decided.")
     ctx.trust("binary_stream primitive readers/writers are mutually inverse", "prost encode/decode are mutually inverse")
+    r1_wire_grammar(ctx)
     r2_field_coverage(ctx)
     r3_tag_tables(ctx)
     r4_determinism(ctx)
     r5_db_row_mapping(ctx)
+    r6_variant_coverage(ctx)
